@@ -20,7 +20,7 @@ func init() {
 		ID:        "C05",
 		Level:     "model_checking",
 		Technique: "exhaustive enumeration of handler programs (result-writer operation sequences x statement counts x parser outcomes) run on a real server over an in-memory transport; every writer call and every cycle compared with a reference state machine",
-		Rule:      "handler programs: all op sequences of length <= N over " + fmt.Sprintf("%q", c05Ops) + " x {return nil, return error} x {0, 2 columns}; 2-3 statement products over a 4-op core; parser error / zero statements / blank queries; each program as first and as second Query of a connection; 7 programs x 5 states of a neighbouring connection of the same server (discarding until Sync, inside COPY-in, inside an extended batch, not started, after a failed query), the neighbour completed and checked afterwards",
+		Rule:      "handler programs: all op sequences of length <= N over " + fmt.Sprintf("%q", c05Ops) + " x {return nil, return error} x {0, 2 columns}; 2-3 statement products over a 4-op core; parser error / zero statements / blank queries; command tags of every length 0..130 and around 256, 1024, 4096; each program as first and as second Query of a connection; 7 programs x 5 states of a neighbouring connection of the same server (discarding until Sync, inside COPY-in, inside an extended batch, not started, after a failed query), the neighbour completed and checked afterwards",
 		Assumptions: []string{
 			"presence of RowDescription for a column-less statement, a CommandComplete for a statement returning nil without Complete, and the behaviour of calls after a successful Empty() are not asserted (only return-value <=> emission consistency)",
 			"reply attribution uses quiescence of the in-memory transport (server parked in Read), not time",
@@ -32,6 +32,14 @@ func init() {
 		},
 		RequiredOutcomes: []string{"ok", "stmt-error", "parser-error", "zero-statements", "blank", "copy-cycle", "neighbour"},
 	})
+}
+
+func c05TagLengths() []int {
+	var out []int
+	for n := 0; n <= 130; n++ {
+		out = append(out, n)
+	}
+	return append(out, 254, 255, 256, 257, 1023, 1024, 1025, 4090, 4095, 4096, 4097, 8000)
 }
 
 func c05Depth(tier string) (int, int, int) {
@@ -240,6 +248,11 @@ func c05Enumerate(tier string, emit explore.Emit) {
 	}
 	for _, q := range []string{"", " ", "\t\n ", "#perr", "#zero"} {
 		add(q, 0)
+	}
+	// command tags of every length around the sizes of the writer's internal buffers
+	for _, n := range c05TagLengths() {
+		add(fmt.Sprintf("1:r,c=@%d", n), 3)
+		add(fmt.Sprintf("0:c=@%d|1:r,c=@%d", n, n+1), 4)
 	}
 	// every neighbour state x a small set of programs
 	for _, nb := range neighbourStates() {
